@@ -4,7 +4,9 @@ import random
 from fractions import Fraction as F
 
 from symx.core import Shape
-from symx import fock, paulibv as PB
+import numpy as np
+
+from symx import fock, paulibv as PB, shim
 from symx.num import Sym
 
 PROPERTY = "C03"
@@ -502,6 +504,50 @@ def h_hcb_spin(env, m, which):
                          f"HCB {m} orbitals, operator '{which}' without spin symmetry: map(Op)|pairs {k}> = seniority-zero block of Op|pairs {k}>")
 
 
+def h_interaction_operator(env, n, mapping, utd, hermitian):
+    """the documented second input form: an openfermion InteractionOperator (constant, one-body and two-body tensors; generic,
+    NOT necessarily Hermitian dyadic entries, enumerated) gives the same qubit operator as the FermionOperator
+    const + sum h[p,q] a+_p a_q + sum g[p,q,r,s] a+_p a+_q a_r a_s written out term by term (exact dyadic arithmetic, 1e-12)"""
+    from openfermion import InteractionOperator
+    from tangelo.toolboxes.operators import FermionOperator
+    from tangelo.toolboxes.qubit_mappings.mapping_transform import fermion_to_qubit_mapping
+    rnd = random.Random(1000 * n + 7 * len(mapping) + int(utd) + 2 * int(hermitian))
+    with shim.concrete_mode():
+        h = np.zeros((n, n), dtype=complex)
+        g = np.zeros((n, n, n, n), dtype=complex)
+        for p_ in range(n):
+            for q_ in range(n):
+                h[p_, q_] = rnd.randint(-8, 8) / 8 + 1j * rnd.randint(-4, 4) / 8
+                for r_ in range(n):
+                    for s_ in range(n):
+                        if rnd.random() < 0.5:
+                            g[p_, q_, r_, s_] = rnd.randint(-8, 8) / 16 + 1j * rnd.randint(-4, 4) / 16
+        if hermitian:
+            h = (h + h.conj().T) / 2
+            g = (g + g.conj().transpose(3, 2, 1, 0)) / 2
+        const = 0.375
+        iop = InteractionOperator(const, h.copy(), g.copy())
+        fop = FermionOperator((), const)
+        for p_ in range(n):
+            for q_ in range(n):
+                if h[p_, q_] != 0:
+                    fop += FermionOperator(((p_, 1), (q_, 0)), h[p_, q_])
+                for r_ in range(n):
+                    for s_ in range(n):
+                        if g[p_, q_, r_, s_] != 0:
+                            fop += FermionOperator(((p_, 1), (q_, 1), (r_, 0), (s_, 0)), g[p_, q_, r_, s_])
+        kw = dict(n_spinorbitals=n, up_then_down=utd)
+        got = dict(fermion_to_qubit_mapping(iop, mapping, **kw).terms)
+        want = dict(fermion_to_qubit_mapping(fop, mapping, **kw).terms)
+        keys = set(k for k, v in got.items() if abs(v) > 1e-12) | set(k for k, v in want.items() if abs(v) > 1e-12)
+        dev = max([abs(complex(got.get(k, 0)) - complex(want.get(k, 0))) for k in keys] or [0.0])
+        env.check_true(dev < 1e-12, f"{mapping} utd={utd}: map(InteractionOperator) == map(the same operator written as a FermionOperator) "
+                                    f"[{'Hermitian' if hermitian else 'generic non-Hermitian'} tensors, {n} spin-orbitals]",
+                       detail=f"max coefficient deviation {dev} over {len(keys)} words")
+        env.check_true(np.array_equal(iop.one_body_tensor, h) and np.array_equal(iop.two_body_tensor, g) and iop.constant == const,
+                       "the InteractionOperator handed in is unchanged")
+
+
 def h_comb_reject(env):
     """combinatorial(): n_electrons is a (n_alpha, n_beta) tuple or an EVEN int; other forms are refused (an odd int would have to
     be split silently), and the int form equals the tuple form"""
@@ -672,6 +718,12 @@ def shapes(tier, seed):
         for m in ms:
             out.append(Shape(f"hcb-spin/{which}/m{m}", h_hcb_spin, dict(m=m, which=which), modules=MODS))
     out.append(Shape("comb/reject-n_electrons", h_comb_reject, {}, modules=()))
+    for mp_ in ("jw", "bk", "jkmn"):
+        for utd_ in (False, True):
+            for herm_ in (False, True):
+                for n_ in ((4,) if tier == "quick" else (2, 4, 6)):
+                    out.append(Shape(f"aux/interaction-operator/{mp_}/utd={int(utd_)}/n{n_}/{'herm' if herm_ else 'generic'}", h_interaction_operator,
+                                     dict(n=n_, mapping=mp_, utd=utd_, hermitian=herm_), modules=()))
     out.append(Shape("canary/hcb", h_hcb, dict(m=2, canary=True), modules=MODS, canary=True))
     # (f)  every (n_alpha, n_beta) with at least two configurations
     import math
